@@ -589,7 +589,11 @@ impl<'a> Gen<'a> {
                 "s"
             }
             .to_string();
-            if itermut && (st == "n" || st == "b") && self.rng.pct(70) {
+            if (st == "n" || st == "b") && self.rng.pct(12) {
+                // nth / nth_back: k mostly small, sometimes beyond what is left
+                let k = if self.rng.pct(75) { self.rng.below(3) } else { self.rng.below(len as u64 + 3) };
+                st = if st == "n" { format!("nth:{k}") } else { format!("nthb:{k}") };
+            } else if itermut && (st == "n" || st == "b") && self.rng.pct(70) {
                 let w = self.opt_prio(40);
                 let pl = self.opt_pl(50);
                 st = format!("{st}:{w}:{pl}");
